@@ -104,8 +104,8 @@ example : Window ({} : L) := by simp [Window]
 
 /-! ## Rolling back restores exactly the previous state
 
-`SameAt b x y`: the databases `x` and `y` hold the same account record, the same code and the same value under every
-storage key of address `b`.  `Coh db a acc`: the origin fields of the account object are what the database holds
+`SameAt b x y`: the databases `x` and `y` hold the same account record, the same code and the same bytes under every
+storage key of address `b` (a missing key and an empty value are the same bytes, as on every read path of the ledger).  `Coh db a acc`: the origin fields of the account object are what the database holds
 (which is how `GetAccount`, `GetState` and `Code` fill them). -/
 
 /-- **one block**: a block's dirty accounts are flushed (`FlushDirtyData`) and committed (`Commit`) as height `maxJ + 1`;
@@ -142,6 +142,19 @@ holds what their commits left gives back everything the database held before the
 theorem C12_reverting_journals_restores_any_height (bs : List (List Item)) (db D2 : DB) (hcoh : CohBlocks db bs)
     (hsame : ∀ b, SameAt b D2 (commitBlocks bs db)) (b : Addr) : SameAt b (revertBlocks bs D2) db :=
   revertBlocks_commitBlocks bs db D2 hcoh hsame b
+
+/-- **any retained height, through `RollbackState`**: the ledger is `n ≥ 1` blocks above height `t`; the journals kept
+for the heights `t+1 … t+n` are the entries of those blocks; each block's accounts mirrored the state store it was
+committed on (`CohBlocks`), and the state store holds what those commits left.  Then a successful `RollbackState(t)`
+leaves, for every address, exactly the account record, code and storage the state store held at height `t`. -/
+theorem C12_rollback_restores_any_retained_height (J : Nat → List Item) (dbt : DB) (l l2 : L) (t n : Nat) (hn : 0 < n)
+    (hm : l.maxJ = t + n)
+    (hj : ∀ j, t < j → j ≤ t + n → ∃ bj, KV.get l.db.journals j = some bj ∧ bj.entries = (J j).map (fun p => entryOf p.1 p.2))
+    (hcoh : CohBlocks dbt (blocksOf J t n))
+    (hsame : ∀ b, SameAt b l.db (commitBlocks (blocksOf J t n) dbt))
+    (hr : rollback l t = .ok l2) (b : Addr) : SameAt b l2.db dbt :=
+  (rollback_spec J l l2 t n hn hm hj hr b).trans
+    (revertBlocks_commitBlocks (blocksOf J t n) dbt l.db hcoh hsame b)
 
 /-! non-vacuity: a ledger at height 3 whose block changes the balance and nonce of account 1, deletes its key `k`, creates
 its key `k2` and creates account 2 meets the hypotheses; the commit as height 4 and the rollback to 3 both succeed -/
